@@ -151,7 +151,11 @@ def run(ctx):
            note='constant-level lemmas over 6 file systems x 4681 paths: textual normalisation is harmless without links, wrong behind a directory link; '
                 '"." and doubled separators are neutral; links are transparent; cycles fail')
     from .. import paths
-    core.run_family(ctx, paths.PathResolution())
+    pfam = paths.PathResolution()
+    try:
+        core.run_family(ctx, pfam)
+    finally:
+        pfam.cleanup()
     strict_archive_independence(ctx)
     rng = random.Random(ctx.seed)
     tmp = tlc.mktmp('c08-')
